@@ -144,7 +144,7 @@ func (x *Exec) ident(st *State, e *ast.Ident) Term {
 func (x *Exec) autoDeref(st *State, t Term, n ast.Node) Term {
 	if t.Sort.Kind == KPtr {
 		x.assert(st, tNot(x.c().ptrIsNil(t)), "nilderef", x.exprText(n), n, "non-nil "+x.exprText(n))
-		return x.c().ptrVal(t)
+		return x.c().ptrVal(x.c().recFull(t))
 	}
 	return t
 }
@@ -316,6 +316,11 @@ func (x *Exec) binary(st *State, e *ast.BinaryExpr) Term {
 	ot := x.typeOf(e.X)
 	switch e.Op {
 	case token.EQL, token.NEQ:
+		if a.Sort.Name != b.Sort.Name {
+			if r, ok := c.recPtrConv(b, a.Sort); ok {
+				b = r
+			}
+		}
 		if a.Sort.Name != b.Sort.Name {
 			x.unsupported(e, "comparison of %s and %s", a.Sort.Name, b.Sort.Name)
 		}
@@ -616,6 +621,9 @@ func (x *Exec) coerce(t Term, want *Sort) Term {
 	}
 	if t.Sort.Kind == KOpaque && strings.HasPrefix(t.Sort.Name, "O_nil") {
 		return x.c().zero(want, nil)
+	}
+	if r, ok := x.c().recPtrConv(t, want); ok {
+		return r
 	}
 	if want.Kind == KErr && t.Sort.Kind != KErr {
 		// concrete value converted to error interface: fresh non-nil error determined by the value
